@@ -138,6 +138,18 @@ VARIANTS = [
     V( 'duration-hours-from-days', TIMES, "hours = d_secs // cls.HR", "hours			= w_secs // cls.HR", fires=[ 'T-DURATION' ] ),
     V( 'record-split-once', HFILES, "dt,sn,js = l.split( '\\t', 2 )", "dt,sn,js			= l.split( '\\t' )", fires=[ 'T-RECORD' ] ),
     V( 'record-no-newline', HFILES, "json.dumps( data ))) + '\\n',", "json.dumps( data ))),", fires=[ 'T-RECORD' ] ),
+    # ---- rules that had no variant of their own
+    V( 'default-truthiness-identity-state', PARSER, "data.state # EtherNet/IP CIP Vol 2, Table 2-4.4:\n if 'state' in data # If not implemented,\n else 0xFF ) # the value shall be 0xFF", "data.get( 'state' ) or 0xFF )", fires=[ 'L-DEFAULT' ] ),
+    V( 'default-presence-rewritten', PARSER, "data.state # EtherNet/IP CIP Vol 2, Table 2-4.4:\n if 'state' in data # If not implemented,\n else 0xFF ) # the value shall be 0xFF", "data.get( 'state', 0xFF ))", silent=[ 'L-DEFAULT' ] ),
+    V( 'recv-timeout-as-empty', NETWORK, "@readable( default=None )\ndef recv(", "@readable( default=b'' )\ndef recv(", fires=[ 'N-RECV' ] ),
+    V( 'localize-replace-tzinfo', TIMES, "return tzinfo.localize( datetime.datetime( *map( int, terms )), is_dst=is_dst )", "return datetime.datetime( *map( int, terms )).replace( tzinfo=tzinfo )", fires=[ 'T-LOCALIZE' ] ),
+    V( 'localize-constant-hint', TIMES, "return tzinfo.localize( datetime.datetime( *map( int, terms )), is_dst=is_dst )", "return tzinfo.localize( datetime.datetime( *map( int, terms )), is_dst=False )", fires=[ 'T-LOCALIZE' ] ),
+    V( 'symbol-raw-key-lookup', DEVICE, "tag_canonical = canonicalize_tag( tag )\n address = symbol.get( tag_canonical, None )", "tag_canonical		= canonicalize_tag( tag )\n    address			= symbol.get( tag, None )", fires=[ 'T-SYMBOL' ] ),
+    V( 'symbol-casefold', DEVICE, "tag_canonical = tag.lower()", "tag_canonical		= tag.casefold()", fires=[ 'T-SYMBOL' ] ),
+    V( 'prims-input-not-appended', AUTO, "thing.append( inp )", "pass", fires=[ 'G-PRIMS' ] ),
+    V( 'resolve-unprotected-in-mr', DEVICE, "target = self.route( data, fail=self.ROUTE_RAISE )", "target		= self.route( data, fail=self.ROUTE_RAISE )", silent=[ 'S-RESOLVE' ] ),
+    V( 'pathsyntax-numeric-separator', CLIENT, "path = symbolic if symbolic else ('@' + '/'.join( numeric ))", "path			= symbolic if symbolic else ('@' + ':'.join( numeric ))", fires=[ 'T-PATHSYNTAX' ] ),
+    V( 'reply-converting-handler', LOGIX, "log.error( \"EtherNet/IP CIP error %s\\n%s\", where,\n ( '' if log.getEffectiveLevel() >= logging.NORMAL\n else ''.join( traceback.format_exception( *sys.exc_info() ))))\n raise", "log.error( \"EtherNet/IP CIP error %s\", where )\n        data.response		= dotdict( data.request )\n        data.response.enip	= dotdict( data.request.get( 'enip', {} ))\n        data.response.enip.status= 0x01\n        return True", silent=[ 'E-REPLY' ], why='a status-converting handler repairs known finding M' ),
     # ---- round-2 rules
     V( 'regex-key-collision', AUTO, "while add in machine.map or add in states:", "while add in machine.map:", fires=[ 'X-FROMREGEX' ], why='defect K' ),
     V( 'regex-key-dead-collision', AUTO, "while add in machine.map or add in states:", "while add in states:", fires=[ 'X-FROMREGEX' ] ),
